@@ -25,7 +25,7 @@ if not breaks: breaks = [base]
 meta = {
     "id": "%s-%s" % (prop, k),
     "breaks": breaks,
-    "source": ("round-5 sub-agent that saw only the text of property %s (asked for three kinds of change: two cooperating sites / multi-step sequence or rare API combination or unusual type / interleaving or fault at a particular point) and its own scratch worktree of /repo (nothing from /verif)" % base) if prop.startswith("R5-") else ("sub-agent that saw only the text of property %s and its own scratch worktree of /repo (nothing from /verif)" % prop) if prop.startswith("C") else "round-2 sub-agent that saw the texts of properties C01-C19, a focus area of the code and its own scratch worktree of /repo (nothing from /verif)",
+    "source": ("round-5 sub-agent that saw only the text of property %s (asked for three kinds of change: two cooperating sites / multi-step sequence or rare API combination or unusual type / interleaving or fault at a particular point) and its own scratch worktree of /repo (nothing from /verif)" % base) if prop.startswith("R5-") else ("sub-agent that saw only the text of property %s and its own scratch worktree of /repo (nothing from /verif)" % prop) if prop.startswith("C") else ("round-%s sub-agent that saw" % (prop[1] if prop[0]=="R" and prop[1].isdigit() else "2")) + "  the texts of properties C01-C19, a focus area of the code and its own scratch worktree of /repo (nothing from /verif)",
     "needs_to_manifest": notes[:1200],
     "verified_by_me": {
         "demo_mode": mode,
